@@ -93,7 +93,24 @@ fn one(rep: &Report, data: Vec<DataItem>, rng: &Rng, core: bool, idx: usize, cli
     }
     let p = Program { data: data.clone(), items: std::mem::take(&mut items) };
     let mut sp = if idx % 2 == 0 { Spell::plain() } else { Spell::random(rng.fork(11)) };
-    let text = format!("{}{}", p.render(&mut sp, &Layout::plain()).text, text_tail);
+    let mut head = p.render(&mut sp, &Layout::plain()).text;
+    if idx % 4 == 3 {
+        // several definitions on one line (the grammar is white-space insensitive)
+        let nd = data.len();
+        let mut seen = 0;
+        head = head
+            .chars()
+            .map(|c| {
+                if c == '\n' && seen + 1 < nd {
+                    seen += 1;
+                    ' '
+                } else {
+                    c
+                }
+            })
+            .collect();
+    }
+    let text = format!("{}{}", head, text_tail);
     rep.eval(1);
     let fail = |sig: &str, what: &str, detail: String| {
         rep.fail(Failure {
